@@ -61,6 +61,34 @@ class T(ast.NodeTransformer):
                                                        keywords=[])), node)
         return node
 
+    def visit_UnaryOp(self, node):
+        self.generic_visit(node)
+        if isinstance(node.op, ast.Not):
+            # `not x` would call bool(x) (a fork for symbolic x): keep it symbolic
+            return ast.copy_location(ast.Call(func=ast.Name('__sym_not__', ast.Load()), args=[node.operand], keywords=[]), node)
+        return node
+
+    def visit_If(self, node):
+        """if-conversion of straight-line two-armed assignments: `if c: T = a` / `else: T = b` (same target T, simple value
+        expressions) becomes, for a *symbolic* c only, T = ite(c, a, b); concrete conditions keep the original statement"""
+        self.generic_visit(node)
+        try:
+            if len(node.body) == 1 and len(node.orelse) == 1:
+                b, o = node.body[0], node.orelse[0]
+                tb, vb = _assign_parts(b); to, vo = _assign_parts(o)
+                if tb is not None and to is not None and ast.dump(tb) == ast.dump(to) and _simple(vb) and _simple(vo):
+                    tmp = ast.Name('__sym_cond_tmp__', ast.Store())
+                    load = lambda: ast.Name('__sym_cond_tmp__', ast.Load())
+                    ite_val = ast.Call(func=ast.Name('__sym_ite__', ast.Load()), args=[load(), vb, vo], keywords=[])
+                    merged = _make_assign(b, ite_val)
+                    orig = ast.If(test=load(), body=node.body, orelse=node.orelse)
+                    new = [ast.Assign(targets=[tmp], value=node.test),
+                           ast.If(test=ast.Call(func=ast.Name('__sym_isconc__', ast.Load()), args=[load()], keywords=[]), body=[orig], orelse=[merged])]
+                    return [ast.copy_location(n, node) for n in new]
+        except Exception:      # noqa: any doubt -> leave the statement alone
+            pass
+        return node
+
     def visit_FunctionDef(self, node):
         self.generic_visit(node)
         for i, d in enumerate(node.decorator_list):
@@ -73,6 +101,37 @@ class T(ast.NodeTransformer):
 
     def visit_Annotation(self, node):
         return node
+
+
+def _assign_parts(stmt):
+    """(target expr, value expr) of `T = v`, or of the already rewritten `__sym_setitem__(a, k, v)`; else (None, None)"""
+    if isinstance(stmt, ast.Assign) and len(stmt.targets) == 1 and isinstance(stmt.targets[0], ast.Name):
+        return stmt.targets[0], stmt.value
+    if isinstance(stmt, ast.Expr) and isinstance(stmt.value, ast.Call) and isinstance(stmt.value.func, ast.Name) \
+            and stmt.value.func.id == '__sym_setitem__':
+        a, k, v = stmt.value.args
+        return ast.Tuple([a, k], ast.Load()), v
+    return None, None
+
+
+def _make_assign(like, value):
+    if isinstance(like, ast.Assign):
+        return ast.Assign(targets=[ast.Name(like.targets[0].id, ast.Store())], value=value)
+    a, k, _ = like.value.args
+    return ast.Expr(ast.Call(func=ast.Name('__sym_setitem__', ast.Load()), args=[a, k, value], keywords=[]))
+
+
+def _simple(e):
+    """value expressions safe to evaluate on both arms: names, constants, arithmetic, subscripts (already helper calls),
+    attribute reads; no other calls"""
+    for n in ast.walk(e):
+        if isinstance(n, ast.Call):
+            f = n.func
+            if not (isinstance(f, ast.Name) and f.id in ('__sym_getitem__', '__sym_int__', '__sym_float__', '__sym_abs__', '__sym_min__', '__sym_max__')):
+                return False
+        if isinstance(n, (ast.Lambda, ast.Yield, ast.Await, ast.NamedExpr, ast.ListComp, ast.GeneratorExp)):
+            return False
+    return True
 
 
 def has_sym(k):
@@ -134,7 +193,10 @@ def _nary(op, py):
             if isinstance(r, S.Sym) or isinstance(v, S.Sym):
                 # python min/max: returns the first argument on ties, comparisons with NaN are False
                 c = S.binop('lt', v, r) if op == 'min' else S.binop('gt', v, r)
-                r = S.ite(c, v, r)
+                if FLAGS['fork_minmax']:
+                    r = v if bool(c) else r          # fork: keeps e.g. arm lengths concrete on each path
+                else:
+                    r = S.ite(c, v, r)
             else:
                 r = py(r, v)
         return r
@@ -206,6 +268,20 @@ def _njit_wrap(f):
     return w
 
 
+FLAGS = {'fork_minmax': False}
+
+
+def _ite(c, a, b):
+    return S.ite(c, a, b)
+
+
+def _isconc(c):
+    return not isinstance(c, S.Sym)
+
+
+builtins.__sym_not__ = lambda x: S.snot(x) if isinstance(x, S.Sym) else (not x)
+builtins.__sym_ite__ = _ite
+builtins.__sym_isconc__ = _isconc
 builtins.__sym_int__ = _int
 builtins.__sym_float__ = _float
 builtins.__sym_abs__ = lambda x: S.sabs(x) if isinstance(x, S.Sym) else abs(x)
